@@ -72,11 +72,14 @@ Challenges == {"none", "bearer", "hdr_https", "hdr_other", "hdr_multi", "hdr_lo"
 McpURLs == {"https", "lo", "http"}
 
 PRMHttpFail == {"404", "500", "neterr", "badct", "badjson"}
-PRMDocsCore == {"good", "good_lo", "good_path", "good2", "res_other", "res_slash", "res_sub",
-                "as_http", "as_js", "as_data", "as2_http", "as2_js", "no_as"}
-\* a script-capable scheme in a URL field other than authorization_servers
+\* "field_js": a script-capable scheme in a URL field other than authorization_servers
 \* (jwks_uri, resource_documentation, resource_policy_uri, resource_tos_uri)
-PRMLeadDocs == {"field_js"}
+PRMDocsCore == {"good", "good_lo", "good_path", "good2", "res_other", "res_slash", "res_sub",
+                "as_http", "as_js", "as_data", "as2_http", "as2_js", "no_as", "field_js"}
+\* lead documents: variants for which the code-shaped model is expected to violate an invariant
+\* (none at present: "field_js" was one until /repo 7fe7bee made GetProtectedResourceMetadata
+\* check every URL field)
+PRMLeadDocs == {}
 PRMDocs == PRMDocsCore \cup PRMLeadDocs
 PRMOutcomes == PRMHttpFail \cup PRMDocs
 
@@ -222,6 +225,7 @@ FetchPRM(loc, o) ==
                 ELSE LET f == PRMFacts(o) IN
                   IF \/ f.res # "exact"                                              \* prm.Resource != resourceURL
                      \/ \E i \in DOMAIN f.as : Script(f.as[i]) \/ ~Safe(f.as[i])      \* checkURLScheme, checkHTTPSOrLoopback
+                     \/ Script(f.other)                                               \* checkURLScheme on the four other URL fields
                   THEN next
                   ELSE IF Len(f.as) = 0
                   THEN Fail("no_as") /\ UNCHANGED <<idx, ch, mcp, srv, used>>
